@@ -66,6 +66,21 @@ template <class X> struct UriBox {
     ObjView view() const { return read_uri<X>(u); }
 };
 
+// C11 on a produced object: it and the parse of its own recomposed text are two library-produced URIs with identical
+// text, hence equal, both ways round. (An operation that leaves a second representation of the same text -- a lone empty
+// segment, a rootless list that starts with an empty segment -- shows here.) Texts that are not URI references, or that
+// do not read back as themselves, are other properties' business and are skipped.
+template <class X> void produced_equals_own_text(Ctx& c, const typename X::Uri& u, const char* mon, const char* op, const Str& what) {
+    AttrScope at("C11");
+    Str t; if (to_string<X>(u, &t) != URI_SUCCESS) return;
+    size_t e; if (!dfa_uriref(t, &e)) return;
+    UriBox<X> p; if (p.parse(t) != URI_SUCCESS) return;
+    Str t2; if (to_string<X>(p.u, &t2) != URI_SUCCESS || t2 != t) return;
+    int e1, e2; { LibScope ls; e1 = X::EqualsUri(&u, &p.u); e2 = X::EqualsUri(&p.u, &u); } c.evaluations += 2;
+    if (!e1 || !e2) c.violation("C11", fmt("%s/%s/%s/produced-object-not-equal-to-parse-of-its-text", mon, X::tag(), op), what + fmt(" text=\"%s\"", esc(t).c_str()));
+    else c.count("produced_equals_reparse");
+}
+
 // Checks the C07 clause on one object: well formed, text is a URI reference, re-read text has
 // the same components as the object. Returns "" if fine, else a short reason; *textOut = recomposed text.
 template <class X> Str meaning_check(const typename X::Uri& u, Str* textOut, Comp* held = nullptr) {
